@@ -43,6 +43,7 @@ type HObj struct {
 }
 
 type Frame struct {
+	StoreRet *Ptr // when set, the value this frame returns is also kept (boxed in a one-element tuple) in that cell
 	Fn     *ssa.Function
 	Blk    *ssa.BasicBlock
 	PC     int
@@ -61,6 +62,7 @@ type deferred struct {
 type State struct {
 	InitMark    int    // objects with a smaller id were allocated by the package initialisers: package-level state
 	GlobalWrite string // the first store of this run into such an object ("" = none)
+	OnceDepth   int    // > 0: a once-initialiser of a package-level sync.Once is running from this frame depth on
 	Owned       map[int]bool // large init-time objects (tables) are shared between states until written: those this state has copied
 	Frames  []*Frame
 	Heap    map[int]*HObj
@@ -229,7 +231,7 @@ func (st *State) push(fn *ssa.Function, args []Val, bind []Val) {
 func (st *State) top() *Frame { return st.Frames[len(st.Frames)-1] }
 
 func (st *State) Clone() *State {
-	n := &State{InitMark: st.InitMark, GlobalWrite: st.GlobalWrite, next: st.next, Status: st.Status, Ret: cloneVal(st.Ret), NeedT: st.NeedT, NeedP: st.NeedP, Msg: st.Msg, Steps: st.Steps}
+	n := &State{InitMark: st.InitMark, GlobalWrite: st.GlobalWrite, OnceDepth: st.OnceDepth, next: st.next, Status: st.Status, Ret: cloneVal(st.Ret), NeedT: st.NeedT, NeedP: st.NeedP, Msg: st.Msg, Steps: st.Steps}
 	n.Heap = make(map[int]*HObj, len(st.Heap))
 	for k, o := range st.Heap {
 		if k < st.InitMark && !st.Owned[k] && bigTable(o.V) {
@@ -248,7 +250,7 @@ func (st *State) Clone() *State {
 		n.Tapes = append(n.Tapes, &Tape{Base: t.Base, Syms: append([]int(nil), t.Syms...)})
 	}
 	for _, f := range st.Frames {
-		nf := &Frame{Fn: f.Fn, Blk: f.Blk, PC: f.PC, Prev: f.Prev, Regs: make(map[ssa.Value]Val, len(f.Regs)), Defers: append([]deferred(nil), f.Defers...)}
+		nf := &Frame{StoreRet: f.StoreRet, Fn: f.Fn, Blk: f.Blk, PC: f.PC, Prev: f.Prev, Regs: make(map[ssa.Value]Val, len(f.Regs)), Defers: append([]deferred(nil), f.Defers...)}
 		for k, v := range f.Regs {
 			nf.Regs[k] = cloneVal(v)
 		}
@@ -349,6 +351,12 @@ func (st *State) own(obj int) {
 func (st *State) noteGlobalWrite(obj int) {
 	if st.InitMark == 0 || st.GlobalWrite != "" {
 		return
+	}
+	if st.OnceDepth > 0 {
+		if len(st.Frames) >= st.OnceDepth {
+			return // inside a once-initialiser
+		}
+		st.OnceDepth = 0
 	}
 	for g, id := range st.Globals {
 		if id == obj && g.Pkg != nil && strings.HasPrefix(g.Pkg.Pkg.Path(), repoModule) {
@@ -562,10 +570,20 @@ var globalMutations = map[string]string{}
 func (m *Machine) Run(st *State) []*State {
 	track := m.Alpha == nil && !m.inInit && st.InitMark > 0 && len(st.Frames) == 1 && st.Status == stRun && st.GlobalWrite == ""
 	if !track {
-		return m.run(st)
+		outs := mergeSame(m, m.run(st))
+		if len(outs) == 1 && outs[0] != st {
+			*st = *outs[0]
+			outs[0] = st
+		}
+		return outs
 	}
 	entry := st.Frames[0].Fn
 	outs := mergeSame(m, m.run(st))
+	if len(outs) == 1 && outs[0] != st {
+		// callers go on with the state they passed in
+		*st = *outs[0]
+		outs[0] = st
+	}
 	for _, o := range outs {
 		if o.GlobalWrite != "" {
 			if _, seen := globalMutations[o.GlobalWrite]; !seen {
@@ -713,6 +731,9 @@ func (m *Machine) step(st *State) (forks []*State) {
 		}
 		if st.Status != stRun {
 			return nil
+		}
+		if fr.StoreRet != nil {
+			st.store(*fr.StoreRet, &TupleV{E: []Val{cloneVal(rv)}})
 		}
 		st.Frames = st.Frames[:len(st.Frames)-1]
 		if len(st.Frames) == 0 {
@@ -1538,8 +1559,32 @@ func (m *Machine) doCall(st *State, fr *Frame, x *ssa.Call) []*State {
 		v := m.get(st, fr, cc.Value)
 		if fv, ok := v.(*FuncV); ok {
 			if f, ok := fv.Fn.(*ssa.Function); ok {
+				if fv.Once != nil {
+					// sync.OnceValue and friends: the result of the first call is kept in a cell
+					cur, _ := st.load(*fv.Once)
+					if _, unset := cur.(nilV); !unset {
+						if dv, isDone := cur.(*TupleV); isDone && len(dv.E) == 1 {
+							return finish([]Val{cloneVal(dv.E[0])})
+						}
+					}
+					if len(st.Frames) > 64 || f.Blocks == nil {
+						st.stuck("once-function without a body")
+						return nil
+					}
+					st.push(f, nil, fv.Bind)
+					st.top().StoreRet = fv.Once
+					if len(fv.Bind) == 0 && st.OnceDepth == 0 {
+						st.OnceDepth = len(st.Frames) // a lazily built table: delayed initial state
+					}
+					return nil
+				}
 				return m.callFn(st, fr, x, f, args, fv.Bind, finish)
 			}
+		}
+		if _, isNil := v.(nilV); isNil {
+			st.Status = stPanic
+			st.Msg = "call of a nil function at " + m.P.Pos(x.Pos())
+			return nil
 		}
 		st.stuck("dynamic call through %T", v)
 	}
@@ -1551,13 +1596,29 @@ func (m *Machine) callFn(st *State, fr *Frame, x *ssa.Call, fn *ssa.Function, ar
 	if m.skipInit != nil && m.skipInit(fn) {
 		return finish([]Val{nil})
 	}
-	if h, ok := m.Hooks[name]; ok {
+	h, hooked := m.Hooks[name]
+	if !hooked {
+		if o := fn.Origin(); o != nil && o != fn {
+			h, hooked = m.Hooks[o.String()] // an instance of a generic function: the model of the generic one
+		}
+	}
+	if hooked {
 		alts, handled := h(m, st, &x.Call, args)
 		if st.Status != stRun {
 			return nil
 		}
 		if handled {
 			return finish(alts)
+		}
+	}
+	if o := fn.Origin(); o != nil {
+		switch o.String() {
+		case "sync.OnceValue", "sync.OnceFunc", "sync.OnceValues":
+			// the returned function runs f on its first call and hands out that call's result ever after
+			if fv, ok := args[0].(*FuncV); ok {
+				cell := st.alloc(types.Typ[types.Int], nilV{})
+				return finish([]Val{&FuncV{Fn: fv.Fn, Bind: fv.Bind, Once: &Ptr{Obj: cell}}})
+			}
 		}
 	}
 	if name == "(*sync.Once).Do" && len(args) == 2 {
@@ -1571,6 +1632,17 @@ func (m *Machine) callFn(st *State, fr *Frame, x *ssa.Call, fn *ssa.Function, ar
 				if f, ok := fv.Fn.(*ssa.Function); ok && f.Blocks != nil && inRepoOrRef(f) {
 					st.Notes[key] = true
 					st.push(f, nil, fv.Bind)
+					onGlobal := op.Obj < st.InitMark
+					for g, id := range st.Globals {
+						if id == op.Obj && g.Pkg != nil && strings.HasPrefix(g.Pkg.Pkg.Path(), repoModule) {
+							onGlobal = true
+						}
+					}
+					if len(fv.Bind) == 0 && onGlobal && st.OnceDepth == 0 {
+						// lazy initialisation on a package-level Once by a function that takes nothing from its
+						// caller: its stores are the (delayed) initial state, not a write by this call
+						st.OnceDepth = len(st.Frames)
+					}
 					return nil
 				}
 			}
@@ -1971,14 +2043,47 @@ func (m *Machine) binop(st *State, op token.Token, a, b Val, opType types.Type) 
 	if _, ok := b.(PosInt); ok {
 		return m.binop(st, flipOp(op), b, a, opType)
 	}
+	unsigned := false
+	if opType != nil {
+		if bt, isBasic := opType.Underlying().(*types.Basic); isBasic && bt.Info()&types.IsUnsigned != 0 {
+			unsigned = true
+		}
+	}
 	switch op {
 	case token.EQL, token.NEQ, token.LSS, token.LEQ, token.GTR, token.GEQ:
+		if xi, isX := a.(int64); isX && unsigned {
+			if yi, isY := b.(int64); isY {
+				// unsigned operands are kept as their two's complement bit pattern
+				ux, uy := uint64(xi), uint64(yi)
+				switch op {
+				case token.LSS:
+					return ux < uy, true
+				case token.LEQ:
+					return ux <= uy, true
+				case token.GTR:
+					return ux > uy, true
+				case token.GEQ:
+					return ux >= uy, true
+				}
+			}
+		}
 		r, ok := m.compare(st, op, a, b)
 		return r, ok
 	}
 	// arithmetic / logic
 	x, okx := single(a)
 	y, oky := single(b)
+	if okx && oky && unsigned && y != 0 {
+		switch op {
+		case token.QUO:
+			return truncTo(int64(uint64(x)/uint64(y)), opType), true
+		case token.REM:
+			return truncTo(int64(uint64(x)%uint64(y)), opType), true
+		}
+	}
+	if okx && oky && unsigned && op == token.SHR {
+		return truncTo(int64(uint64(x)>>uint(y)), opType), true
+	}
 	if okx && oky {
 		var r int64
 		switch op {
@@ -2157,6 +2262,21 @@ func (m *Machine) concat(a, b Val) (Val, bool) {
 
 func (m *Machine) compare(st *State, op token.Token, a, b Val) (Val, bool) {
 	isNil := func(v Val) bool { _, ok := v.(nilV); return ok }
+	if xa, isArr := a.(*ArrayV); isArr && (op == token.EQL || op == token.NEQ) {
+		// arrays compare element by element
+		if ya, ok := b.(*ArrayV); ok && len(xa.E) == len(ya.E) {
+			eq := true
+			for i := range xa.E {
+				r, ok := m.compare(st, token.EQL, xa.E[i], ya.E[i])
+				rb, isBool := r.(bool)
+				if !ok || !isBool {
+					return Unknown{Why: "array element comparison"}, true
+				}
+				eq = eq && rb
+			}
+			return eq == (op == token.EQL), true
+		}
+	}
 	switch x := a.(type) {
 	case int64:
 		switch y := b.(type) {
